@@ -376,3 +376,79 @@ Proof.
     + right; left. apply N.eqb_eq in H. exact H.
     + right; right. lia.
 Qed.
+
+(* ------------------------------------------------------------------------------------------- *)
+(* the soft timeout: answers in hand at the soft timeout end the wait (best, latest, block-root
+   majority) *)
+
+Lemma first_soft_split : forall (l : list (N * event value)) u, In (u, ESoft) l ->
+  exists a u' b, l = a ++ (u', ESoft) :: b /\ existsb is_soft (map snd a) = false.
+Proof.
+  induction l as [|[w e] l IH]; intros u H; [destruct H|].
+  destruct (is_soft e) eqn:Es.
+  - destruct e; try discriminate. exists [], w, l. auto.
+  - destruct H as [H|H]; [injection H as _ ->; discriminate|].
+    destruct (IH u H) as [a [u' [b [-> Ha]]]]. exists ((w, e) :: a), u', b. cbn. rewrite Es, Ha. auto.
+Qed.
+
+Lemma b_soft_rule : forall {A} (acc : A -> value -> A) early a0 st pr ps sch,
+  template_of st <> TFirst ->
+  In sch (schedules (timeline st pr ps)) ->
+  let requests := Z.of_nat (length ps) in
+  let r := trun (bstep acc early requests) (fun s => phase_eqb (b_phase s) Done) (b_init early requests a0) sch in
+  forall p1 v1, In p1 ps -> gives_ok st pr p1 v1 -> pv_time p1 < p_timeout pr / 2 ->
+  snd r <= p_timeout pr / 2.
+Proof.
+  intros A acc early a0 st pr ps sch Ht Hs requests r p1 v1 Hp1 Hg1 Hlt.
+  destruct (b_decision acc early a0 st pr ps sch Hs) as [pre [post (E & _ & _ & _ & Hmin & Hpre & Hpost & _ & Hlast)]].
+  fold requests in Hmin. fold requests r in Hpre, Hpost, Hlast.
+  destruct (N.le_gt_cases (snd r) (p_timeout pr / 2)) as [Q|Q]; [exact Q|]. exfalso.
+  pose proof (proj1 (timeline_schedule _ _ _ _ Hs)) as Hso.
+  pose proof (sch_has_soft st pr ps sch Ht Hs) as Hsoft. rewrite E in Hsoft.
+  apply in_app_or in Hsoft as [Hsoft|Hsoft]; [|apply Hpost in Hsoft; cbn in Hsoft; lia].
+  destruct (first_soft_split pre _ Hsoft) as [a [u [b [Epre Ha]]]].
+  assert (Hu : u = p_timeout pr / 2).
+  { apply (sch_soft_time st pr ps sch u Hs). rewrite E, Epre. apply in_or_app. left. apply in_or_app. right. left. reflexivity. }
+  subst u.
+  pose proof (gives_ok_event _ _ _ _ _ _ Hs Hp1 Hg1) as Hx. rewrite E in Hx.
+  apply in_app_or in Hx as [Hx|Hx]; [|apply Hpost in Hx; cbn in Hx; lia].
+  rewrite E, Epre, <- app_assoc in Hso. cbn [app] in Hso. apply ksorted_split in Hso as [_ Hafter].
+  rewrite Forall_forall in Hafter.
+  rewrite Epre in Hx. apply in_app_or in Hx as [Hx|[Hx|Hx]].
+  - (* the answer precedes the soft timeout in the consumed prefix *)
+    assert (Hr : existsb is_resp (map snd a) = true).
+    { apply existsb_exists. exists (EResp (pv_id p1) v1). split; [|reflexivity].
+      apply in_map_iff. exists (pv_time p1, EResp (pv_id p1) v1). auto. }
+    assert (Hstop : b_stop acc early requests a0 (map snd a ++ [ESoft]) = true).
+    { unfold b_stop. rewrite (proj2 (soft_resp_spec (map snd a ++ [ESoft]))); [apply orb_true_r|].
+      exists (map snd a), []. auto. }
+    destruct b as [|y b].
+    + destruct Hlast as [[Hn _] | [pre' [te [Hp Ht']]]]; [rewrite Epre in Hn; destruct a; discriminate|].
+      rewrite Epre in Hp. apply app_inj_tail in Hp as [_ <-]. cbn in Ht'. lia.
+    + specialize (Hmin (map snd a ++ [ESoft]) (map snd (y :: b))).
+      rewrite Hmin in Hstop; [discriminate | | discriminate].
+      rewrite Epre, map_app. cbn [map snd]. rewrite <- app_assoc. reflexivity.
+  - discriminate Hx.
+  - assert (G : In (pv_time p1, EResp (pv_id p1) v1) (b ++ post)) by (apply in_or_app; left; exact Hx).
+    apply Hafter in G. cbn in G. lia.
+Qed.
+
+Lemma outcomes_soft_rule : forall st pr ps r t,
+  (template_of st = TBest \/ template_of st = TMajRoot) -> In (r, t) (outcomes st pr ps) ->
+  forall p1 v1, In p1 ps -> gives_ok st pr p1 v1 -> pv_time p1 < p_timeout pr / 2 ->
+  t <= p_timeout pr / 2.
+Proof.
+  intros st pr ps r t Et H p1 v1 Hp1 Hg1 Hlt. unfold outcomes in H.
+  assert (Hnf : template_of st <> TFirst) by (destruct Et as [Et|Et]; rewrite Et; discriminate).
+  destruct Et as [Et|Et]; rewrite Et in H.
+  - apply in_map_iff in H as [sch [H Hs]].
+    pose proof (b_soft_rule (upd_best (vscore st pr) sgt) no_early None st pr ps sch Hnf Hs p1 v1 Hp1 Hg1 Hlt) as B.
+    destruct (trun _ _ _ sch) as [s t']. injection H as _ <-. exact B.
+  - apply in_flat_map in H as [sch [Hs H]].
+    pose proof (b_soft_rule (bump v_id) (fun tb : table => (Z.of_nat (length ps) / 2 + 1 <=? largest tb)%Z) []
+                  st pr ps sch Hnf Hs p1 v1 Hp1 Hg1 Hlt) as B.
+    destruct (trun _ _ _ sch) as [s t']. destruct (b_phase s).
+    + destruct H as [H|[]]. injection H as _ <-. exact B.
+    + destruct H as [H|[]]. injection H as _ <-. exact B.
+    + apply in_map_iff in H as [order [H _]]. injection H as _ <-. exact B.
+Qed.
